@@ -285,7 +285,14 @@ def rule_prov(env, shared):
                               u.kind, u.world["name"], fmt(idx)[:160], fmt(r)[:100])))
         # storage accesses
         seen = set()
-        for (e, what, t) in _access_operands(env, u):
+        accs = _access_operands(env, u)
+        base_kind = env.R.impl[m.base_impl(u.world)]["kind"]
+        if not accs and base_kind == "known":
+            out.append(Ob("PROV", key + "|no-access", "viol", loc,
+                          "cannot find where the %s pull of %s takes its elements from the storage (no index / offset derived "
+                          "from the reservation is visible): the delivered values are not tied to the reported index" % (
+                              u.kind, u.world["name"])))
+        for (e, what, t) in accs:
             t0 = unref(t)
             k2 = key + "|" + what
             if k2 in seen:
